@@ -491,3 +491,13 @@ PROPS["C05"] = catalog("C05", "Iggy.Props.C05", ["obs-changed-restart", "poll-"]
                        ASSUME_NODE + ["transport: binary (TCP) only in this round; the HTTP handlers journal through the same EntryCommand path (the same fix applies to both) but are not driven by the harness yet"])
 PROPS["C06"] = catalog("C06", "Iggy.Props.C06", ["obs-changed", "poll-"], CAT_KINDS,
                        ASSUME_NODE + ["transport: binary (TCP) only in this round"])
+
+import gen_crypto
+PROPS["C19"] = {"run": lambda p, tier, seed, replay, t0: run_node_property(
+    p, tier, seed, replay, t0, module="Iggy.Props.C19", gen=gen_crypto.gen, n_quick=100, n_thorough=1500,
+    spec_prefixes=["secret-in-clear", "wrong-key-accepted", "poll-", "obs-changed"],
+    corr_kinds={"send", "poll-offsets", "poll-content", "poll-cur", "poll-status", "figures", "restart"},
+    assumptions=ASSUME_NODE + [
+        "AES-256-GCM is a parameter of the theorems (structure Aead with laws dec_enc and key_sep: hypotheses, instantiated by a toy cipher in the examples)",
+        "absence of plaintext in real files is established by the byte search over the generated payloads / names (a test); the placement theorem is about the model",
+        "message checksum under encryption is that of the ciphertext (the checksum the message was stored with); the harness compares checksum and payload only without encryption"])}
